@@ -143,7 +143,7 @@ func repsFor(ctx *core.Ctx, c *MsgCase) int {
 
 // ---- M1 ---------------------------------------------------------------------
 
-const m1Invariants = "NamesAreFunction NameProps BreadthFirst TagCaseInsensitive IdIgnoresDesc IdCountsMeaning IdSeparatesTextAndMeaning KeyFollowsPhString PluralInKey ContextFree WellFormedFamily"
+const m1Invariants = "NamesAreFunction NameProps BreadthFirst TagCaseInsensitive IdIgnoresDesc IdCountsMeaning IdSeparatesTextAndMeaning BytesKeepIdentity KeyFollowsPhString PluralInKey ContextFree WellFormedFamily"
 
 func m1Cfg(maxParts, maxInner int, dev, only, invs string) string {
 	return fmt.Sprintf("SPECIFICATION Spec\nCONSTANTS\n  MaxParts = %d\n  MaxInner = %d\n  Dev = {%s}\n  OnlyCase = %q\nINVARIANTS %s\nCHECK_DEADLOCK FALSE\n",
@@ -180,6 +180,7 @@ func runDeviations(ctx *core.Ctx) {
 		{"depth_first", "BreadthFirst"},
 		{"id_key_joined", "IdSeparatesTextAndMeaning"},
 		{"tag_case_kept", "TagCaseInsensitive"},
+		{"fp_of_valid_utf8", "BytesKeepIdentity"},
 	}
 	selftest := map[string]interface{}{}
 	var wg sync.WaitGroup
